@@ -2,9 +2,17 @@
    Theorems only; each is closed by [exact] of a lemma from proof/Retry_proofs.v.
    Model: coq/model/Retry.v.  [should_retry f] is csAttempt.shouldRetry as a function of the
    facts it reads (record [facts]); [rpc_attempts p sizes scs] is the list of attempts of one
-   RPC (application: send the messages [sizes], half-close, receive) against per-attempt
-   server scripts [scs] under policy [p] (maxAttempts, channel limit, retryable codes, replay
-   buffer limit). *)
+   RPC (application: send the messages [sizes], half-close, receive; every transport write
+   followed by quiescence) against per-attempt server scripts [scs] under policy [p]
+   (maxAttempts, channel limit, retryable codes, replay buffer limit).  A script reads r
+   messages and then fails before headers (act 0), fails after headers (1) or replies (2), or
+   never processes the stream: RST_STREAM(REFUSED_STREAM) (act 3) / GOAWAY with a
+   last-stream-id below the stream (act 4).  For an attempt [a]: [a_prev] = its
+   grpc-previous-rpc-attempts, [a_recv]/[a_eof] = what its handler received, [a_sent] = how many
+   messages the application had produced when it started, [sent_after m (a_sent a) (a_sc a)] =
+   how many when its failure was noticed, [over p sizes n] = the replay buffer limit is exceeded
+   by the first n messages (cs.committed by bufferForRetryLocked); [scs_ok scs] = every script is
+   well-formed ([script_ok]: r >= 1, act 0..4, code 1..16, pushback kind 0..3). *)
 From Coq Require Import List ZArith Bool.
 From VLib Require Import Codec.
 From VModel Require Import Retry.
@@ -38,48 +46,125 @@ Theorem C18_transparent_only_unprocessed : forall f, should_retry f = Transparen
 Proof. exact transparent_only_unprocessed. Qed.
 Print Assumptions C18_transparent_only_unprocessed.
 
+(* ---- one RPC, all scripts (including REFUSED_STREAM / GOAWAY entries) and message lists ---- *)
+
 (* "the number of non-transparent attempts never exceeds the effective maximum (policy
-   value capped by the channel limit)", for all scripts and message lists *)
-Theorem C18_attempt_bound : forall p sizes scs, 2 <= eff_max p ->
-  Z.of_nat (length (rpc_attempts p sizes scs)) <= Z.min (p_max p) (p_chan_max p).
+   value capped by the channel limit)": at most that many attempts, plus the one uncounted
+   transparent retry when the first attempt's stream was unprocessed ... *)
+Theorem C18_attempt_bound : forall p sizes scs, scs_ok scs -> 2 <= eff_max p ->
+  Z.of_nat (length (rpc_attempts p sizes scs)) <=
+    Z.min (p_max p) (p_chan_max p) + (if unproc (hd_script scs) then 1 else 0).
 Proof. exact attempt_bound. Qed.
 Print Assumptions C18_attempt_bound.
 
+(* ... and the count of non-transparent attempts made so far, which every attempt carries as
+   grpc-previous-rpc-attempts, stays below the maximum: it starts at 0 and grows by exactly one
+   per retry, except for a transparent retry, which can only follow attempt number 0 *)
+Theorem C18_counted_attempts_bound : forall p sizes scs a, scs_ok scs -> 2 <= eff_max p ->
+  In a (rpc_attempts p sizes scs) -> 0 <= a_prev a /\ a_prev a + 1 <= eff_max p.
+Proof. exact counted_attempts_bound. Qed.
+Print Assumptions C18_counted_attempts_bound.
+
+Theorem C18_first_attempt_number : forall p sizes scs a,
+  nth_error (rpc_attempts p sizes scs) 0 = Some a -> a_prev a = 0.
+Proof. exact first_attempt_number. Qed.
+Print Assumptions C18_first_attempt_number.
+
+Theorem C18_attempt_numbering : forall p sizes scs i a b, scs_ok scs ->
+  nth_error (rpc_attempts p sizes scs) i = Some a -> nth_error (rpc_attempts p sizes scs) (S i) = Some b ->
+  a_prev b = a_prev a + 1 \/
+  (a_prev b = a_prev a /\ i = 0%nat /\ unproc (a_sc a) = true /\ over p sizes (a_sent a) = false).
+Proof. exact attempt_numbering. Qed.
+Print Assumptions C18_attempt_numbering.
+
+(* "Transparent retries happen only for attempts the server never processed (refused, above a
+   GOAWAY id ...)": a retry that is not counted follows only the RPC's first attempt, whose
+   stream was answered by REFUSED_STREAM or lies above the GOAWAY id - its handler received
+   nothing - and nothing was committed *)
+Theorem C18_transparent_retry_only_unprocessed : forall p sizes scs i a b, scs_ok scs ->
+  nth_error (rpc_attempts p sizes scs) i = Some a -> nth_error (rpc_attempts p sizes scs) (S i) = Some b ->
+  a_prev b = a_prev a ->
+  i = 0%nat /\ (s_act (a_sc a) = 3 \/ s_act (a_sc a) = 4) /\ a_recv a = 0 /\ a_eof a = false /\
+  over p sizes (a_sent a) = false.
+Proof. exact transparent_retry_only_unprocessed. Qed.
+Print Assumptions C18_transparent_retry_only_unprocessed.
+
+(* and it is not counted against maxAttempts: an unprocessed first attempt is always followed
+   by an attempt that again carries grpc-previous-rpc-attempts = 0 (later unprocessed streams
+   are ordinary UNAVAILABLE failures, see C18_retried_attempts_were_retryable) *)
+Theorem C18_unprocessed_first_attempt_retried_uncounted : forall p sizes scs, scs_ok scs ->
+  0 <= p_buf_limit p -> unproc (hd_script scs) = true ->
+  exists a b, nth_error (rpc_attempts p sizes scs) 0 = Some a /\ nth_error (rpc_attempts p sizes scs) 1 = Some b /\
+              a_prev a = 0 /\ a_prev b = 0 /\ a_first b = false.
+Proof. exact unprocessed_first_attempt_retried_uncounted. Qed.
+Print Assumptions C18_unprocessed_first_attempt_retried_uncounted.
+
 (* "Every retry attempt sends the server exactly the same sequence of messages and
-   half-close as the application produced so far": attempt i is numbered i and what its
+   half-close as the application produced so far": attempt i is served by script i and what its
    handler reads is a prefix of the application's messages, in order (min(r, m) of them),
-   followed by the half-close exactly when it reads past the last message *)
-Theorem C18_replay_exact : forall p sizes scs i a, nth_error (rpc_attempts p sizes scs) i = Some a ->
-  a_prev a = Z.of_nat i /\
+   followed by the half-close exactly when it reads past the last message; an unprocessed
+   stream's handler reads nothing *)
+Theorem C18_replay_exact : forall p sizes scs i a, scs_ok scs -> nth_error (rpc_attempts p sizes scs) i = Some a ->
+  a_sc a = hd_script (skipn i scs) /\
   (exists rest, sizes = firstn (Z.to_nat (a_recv a)) sizes ++ rest) /\
-  a_recv a = Z.min (s_r (a_sc a)) (Z.of_nat (length sizes)) /\
-  (a_eof a = true <-> Z.of_nat (length sizes) < s_r (a_sc a)).
+  (unproc (a_sc a) = false ->
+     a_recv a = Z.min (s_r (a_sc a)) (Z.of_nat (length sizes)) /\
+     (a_eof a = true <-> Z.of_nat (length sizes) < s_r (a_sc a))) /\
+  (unproc (a_sc a) = true -> a_recv a = 0 /\ a_eof a = false) /\
+  a_sent a = sent_upto (Z.of_nat (length sizes)) scs i 0.
 Proof. exact replay_exact. Qed.
 Print Assumptions C18_replay_exact.
 
-(* every attempt that was followed by another one: replay buffer not exceeded, no response
-   headers (trailers-only), code in the policy, no aborting pushback, below the limit *)
-Theorem C18_retried_attempts_were_retryable : forall p sizes scs i a,
-  Forall (fun s => script_ok s = true) scs ->
+(* every attempt that was followed by another one: replay buffer limit not exceeded by any
+   message produced until its failure was noticed, and either it was attempt 0 with an
+   unprocessed stream (transparent), or: no response headers (unprocessed = UNAVAILABLE, or
+   trailers-only), code in the policy, no aborting pushback, below the limit *)
+Theorem C18_retried_attempts_were_retryable : forall p sizes scs i a, scs_ok scs ->
   nth_error (rpc_attempts p sizes scs) i = Some a -> (S i < length (rpc_attempts p sizes scs))%nat ->
-  first_overflows p sizes = false /\ s_act (a_sc a) = 0 /\ in_codes p (s_code (a_sc a)) = true /\
-  (s_pb (a_sc a) = 0 \/ s_pb (a_sc a) = 1) /\ Z.of_nat i + 1 < eff_max p.
+  over p sizes (sent_after (Z.of_nat (length sizes)) (a_sent a) (a_sc a)) = false /\
+  ((i = 0%nat /\ unproc (a_sc a) = true) \/
+   (unproc (a_sc a) = true /\ in_codes p 14 = true /\ a_prev a + 1 < eff_max p) \/
+   (s_act (a_sc a) = 0 /\ in_codes p (s_code (a_sc a)) = true /\
+    (s_pb (a_sc a) = 0 \/ s_pb (a_sc a) = 1) /\ a_prev a + 1 < eff_max p)).
 Proof. exact retried_attempts_were_retryable. Qed.
 Print Assumptions C18_retried_attempts_were_retryable.
 
-(* "no retry happens once ... the replay buffer limit was exceeded" *)
-Theorem C18_no_retry_after_buffer_overflow : forall p sizes scs, first_overflows p sizes = true ->
-  length (rpc_attempts p sizes scs) = 1%nat.
+(* "no retry happens once ... the replay buffer limit was exceeded" - at any message *)
+Theorem C18_no_retry_after_buffer_overflow : forall p sizes scs i a, scs_ok scs ->
+  nth_error (rpc_attempts p sizes scs) i = Some a ->
+  over p sizes (sent_after (Z.of_nat (length sizes)) (a_sent a) (a_sc a)) = true ->
+  length (rpc_attempts p sizes scs) = S i.
 Proof. exact committed_rpc_not_retried. Qed.
 Print Assumptions C18_no_retry_after_buffer_overflow.
+
+(* "An RPC is retried only while uncommitted": an RPC the application committed before sending
+   anything (ClientStream.Context(); op form [-1; ...], modelled as buffer limit -1 = exceeded
+   from the start) makes exactly one attempt, whatever the server does - also when its stream
+   was unprocessed *)
+Theorem C18_application_commit_never_retried : forall p sizes scs, scs_ok scs ->
+  Forall (fun s => 0 <= s) sizes -> p_buf_limit p < 0 -> length (rpc_attempts p sizes scs) = 1%nat.
+Proof. exact precommitted_never_retried. Qed.
+Print Assumptions C18_application_commit_never_retried.
+
+(* "no retry happens once a response header or message was delivered" *)
+Theorem C18_no_retry_after_response : forall p sizes scs i a, scs_ok scs ->
+  nth_error (rpc_attempts p sizes scs) i = Some a -> s_act (a_sc a) = 1 \/ s_act (a_sc a) = 2 ->
+  length (rpc_attempts p sizes scs) = S i.
+Proof. exact response_commits. Qed.
+Print Assumptions C18_no_retry_after_response.
 
 (* concurrent use (SendMsg running while RecvMsg retries): when the SendMsg of message j is
    overtaken by a retry performed by a concurrent RecvMsg, every attempt must still receive
    exactly what it receives in the sequential schedule (withRetry re-issues the message on the
-   new attempt) - the model gives both schedules the same trace, and the driver replays the
-   overtaken-send schedule on the real code (op form [0; j; ...]) *)
-Theorem C18_held_send_same_as_sequential : forall p j op o,
-  run_op p (0 :: j :: op) = Some o -> run_op p op = Some o.
+   new attempt) - the model gives both schedules the same attempts (count, numbers, messages,
+   half-close), and the driver replays the overtaken-send schedule on the real code (op form
+   [0; j; ...]) *)
+Theorem C18_held_send_same_as_sequential : forall p j op sizes scs,
+  dec_op (0 :: j :: op) = Some (sizes, scs) ->
+  dec_op op = Some (sizes, scs) /\
+  forall o, run_op p (0 :: j :: op) = Some o ->
+    exists o', run_op p op = Some o' /\
+      firstn (S (4 * length (rpc_attempts p sizes scs))) o = firstn (S (4 * length (rpc_attempts p sizes scs))) o'.
 Proof. exact held_send_same. Qed.
 Print Assumptions C18_held_send_same_as_sequential.
 
@@ -89,12 +174,35 @@ Theorem C18_holds_on_every_model_trace : forall cfg ops p, dec_cfg cfg = Some p 
 Proof. exact model_trace_holds. Qed.
 Print Assumptions C18_holds_on_every_model_trace.
 
-(* non-vacuity: policy maxAttempts 4 (channel 5), codes {14, 8}: three retryable failures then
-   success = 4 attempts; five failures are cut at 4 attempts *)
+(* NOTE, not part of C18's text (it does not speak about the status the application sees): a
+   retry attempt created by RecvMsg that fails while its replay is still writing makes RecvMsg
+   return the replayed SendMsg's io.EOF - a clean end of stream without reply although the last
+   attempt ended with UNAVAILABLE after response headers (reproduced by the driver on the real
+   code, case 0; the model follows the code, see [final_of]) *)
+Theorem C18_note_replay_eof_masks_status :
+  exists p, dec_cfg [4; 5; 64; 2; 14; 8] = Some p /\
+    run_op p [2; 3; 4; 2; 3;0;14;0; 1;1;14;0] = Some [2; 0;2;1;1; 1;1;1;0; 0; 0] /\
+    final_of p true 2 false 1 2 (mksc 1 1 14 0) = (0, 0) /\ std_code (mksc 1 1 14 0) = 14.
+Proof. exact note_replay_eof_masks_status. Qed.
+Print Assumptions C18_note_replay_eof_masks_status.
+
+(* non-vacuity: policy maxAttempts 4 (channel 5), codes {14, 8}, buffer limit 64:
+   three retryable failures then success = 4 attempts; five failures are cut at 4 attempts;
+   REFUSED_STREAM then one counted failure then success = 3 attempts numbered 0, 0, 1;
+   REFUSED_STREAM + five failures = 5 attempts numbered 0, 0, 1, 2, 3;
+   three 25-byte messages: the third exceeds the limit, so the second failure is final;
+   the held-send schedule *)
 Example C18_witness :
   run [4; 5; 64; 2; 14; 8] [[1; 3; 3; 1;0;14;0; 1;0;8;1; 1;0;14;0];
-                             [1; 3; 5; 1;0;14;0; 1;0;14;0; 1;0;14;0; 1;0;14;0; 1;0;14;0]] =
-    Some [[4; 0;1;1;0; 1;1;1;0; 2;1;1;0; 3;1;1;0; 0; 1]; [4; 0;1;1;0; 1;1;1;0; 2;1;1;0; 3;1;1;0; 14; 0]] /\
+                             [1; 3; 5; 1;0;14;0; 1;0;14;0; 1;0;14;0; 1;0;14;0; 1;0;14;0];
+                             [1; 3; 2; 1;3;14;0; 1;0;14;0];
+                             [1; 3; 5; 1;3;14;0; 1;0;14;0; 1;0;14;0; 1;0;14;0; 1;0;14;0];
+                             [3; 20;20;20; 3; 2;0;14;0; 3;0;14;0; 1;0;14;0]] =
+    Some [[4; 0;1;1;0; 1;1;1;0; 2;1;1;0; 3;1;1;0; 0; 1]; [4; 0;1;1;0; 1;1;1;0; 2;1;1;0; 3;1;1;0; 14; 0];
+          [3; 0;0;1;0; 0;1;1;0; 1;1;1;0; 0; 1]; [5; 0;0;1;0; 0;1;1;0; 1;1;1;0; 2;1;1;0; 3;1;1;0; 14; 0];
+          [2; 0;2;1;0; 1;3;1;0; 14; 0]] /\
   (exists p, dec_cfg [4; 5; 64; 2; 14; 8] = Some p /\ op_wf p [1; 3; 3; 1;0;14;0; 1;0;8;1; 1;0;14;0] = true /\
+     op_wf p [1; 3; 2; 1;4;14;0; 1;3;14;0] = true /\
+     run_op p [-1; 1; 3; 2; 1;3;14;0; 1;0;14;0] = Some [1; 0;0;1;0; 14; 0] /\
      run_op p [0; 2; 2; 1; 1; 2; 2;0;14;0; 3;2;1;0] = Some [2; 0;2;1;0; 1;2;1;1; 0; 1]).
-Proof. vm_compute. split; [reflexivity|]. eexists. split; [reflexivity|split; reflexivity]. Qed.
+Proof. vm_compute. split; [reflexivity|]. eexists. split; [reflexivity|repeat split; reflexivity]. Qed.
